@@ -138,7 +138,7 @@ def _reads_upvar(body, op, name):
 @rule("C04", "C04.R5", "removals from the conflict map keep `every commit >= kept_since is recorded`")
 def r5(cx):
     n = 0
-    for body in cx.f.bodies.values():
+    for body in cx.f.scan_bodies():
         if not body.file.endswith("oracle.rs"):
             continue
         for c in body.calls:
